@@ -427,6 +427,10 @@ pub trait PixelDataWriter {
         for frame in 0..frames {
             let mut frame_data = Vec::new();
             out = self.encode_frame(src, frame, options.clone(), &mut frame_data)?;
+            // fragments must have an even length
+            if frame_data.len() % 2 == 1 {
+                frame_data.push(0);
+            }
             offset_table.push(offset);
             offset += frame_data.len() as u32 + 8;
             dst.push(frame_data);
